@@ -10,7 +10,7 @@ import (
 
 func init() {
 	register(&Property{
-		ID: "C15",
+		ID:          "C15",
 		Explanation: "R3 allocate-and-reserve: a name allocator (recognised structurally: returns a string that it tested for membership in a map, directly or through findNameUse) stores the very value it returns as a key of that map on every path to the return; otherwise a later request gets the same name and two declarations or export aliases collide. Decides two structural necessary conditions of 'renaming never changes binding' (capture-freedom itself is a relation between scope trees and is not decided): R1 names reach the output only through the renamer: in the JS printer no value read from ast.Symbol.OriginalName flows into an output sink (it may only be compared or handed to the source-map name table), and identifier printing obtains its text from Renamer.NameForSymbol; R2 every renamer honours the must-not-rename namespace: MinifyRenamer.NameForSymbol returns a generated slot name only when SlotNamespace() != SlotMustNotBeRenamed, AccumulateSymbolCount and NumberRenamer.assignName test the slot namespace before counting/assigning, AssignNamesByFrequency consults the reserved-name set (default namespace) and the keyword table (labels) before storing a name, and computeReservedNamesForScope reserves unbound and pinned names of both Members and Generated and descends into scopes containing direct eval. R4 symbol-registered: every newSymbol call of the parser is followed on every path by a registration in Scope.Generated / Scope.Members (interprocedural; 17 reviewed exceptions). R5 renamer-input-siblings (shared with C10/R5). R6 hoisted-import-bindings: every ref-bearing field of SImport / SExportStar / SExportFrom flows into AddTopLevelSymbol. R7 generated-name-tested-last: in AssignNamesByFrequency the last candidate generated before the store into the slot is looked up in the namespace's table after it was generated (namespace-infeasible edges pruned). NOT covered: slot assignment, collision freedom between merged scopes, mangle-props consistency.",
 		Run: func(p *Prog, tier string) []*RuleResult {
 			return []*RuleResult{c15NamesViaRenamer(p), c15PinRespect(p), c15AllocReserve(p), c15SymbolRegistered(p), c10RenamerSiblings(p, "C15/R5 renamer-input-siblings"), c15HoistedImportBindings(p), c15GeneratedNameTestedLast(p)}
